@@ -545,6 +545,25 @@ theorem accepted_mask_has_output_shape (fs : List (TField K R)) (αr αc : R) (W
   have := (not_congr (call_mask_refused_iff fs αr αc W0 W1 shape propShape os m)).mp h
   exact ⟨not_not.mp fun h0 => this (Or.inl h0), not_not.mp fun h1 => this (Or.inr h1)⟩
 
+/-- **A wavefront without plane type is refused (TypeError) before anything else**, whatever shape, propagation shape, oversampling
+and mask — also a mask of the wrong shape or without support, which on a typed wavefront raise ValueError / IndexError: the
+plane-type check precedes the mask block in the source (`Gen.dftPtypeStmt < Gen.dftMaskGuardStmt`, regenerated positions) -/
+theorem untyped_refused_before_mask_guard (fs : List (TField K R)) (αr αc : R) (W0 W1 : Int) (shape propShape : Gen.ShapeArg) (os : Int)
+    (mask : Option (Arr Bool)) :
+    propagateDftTyped .none fs αr αc W0 W1 shape propShape os mask = DftCallOut.refusedBy .typeError := by
+  have h : Gen.dftPtypeStmt < Gen.dftMaskGuardStmt := by decide
+  simp only [propagateDftTyped, Gen.codePropagate, h, if_true]
+
+/-- **Both directions run the same call**: on a pupil-plane wavefront (pupil → image) and on an image-plane wavefront (image →
+pupil, "or back") the typed call is `propagateDftCall` — the call every sample theorem of this file is about — with identical
+arguments; only the plane type of the result differs (flipped, generated table `Gen.codePropagate`) -/
+theorem both_directions_same_call (fs : List (TField K R)) (αr αc : R) (W0 W1 : Int) (shape propShape : Gen.ShapeArg) (os : Int)
+    (mask : Option (Arr Bool)) :
+    propagateDftTyped .pupil fs αr αc W0 W1 shape propShape os mask
+      = DftCallOut.done .image (propagateDftCall fs αr αc W0 W1 shape propShape os mask) ∧
+    propagateDftTyped .image fs αr αc W0 W1 shape propShape os mask
+      = DftCallOut.done .pupil (propagateDftCall fs αr αc W0 W1 shape propShape os mask) := ⟨rfl, rfl⟩
+
 /-- the witnesses of the former known finding are refused now: an 8x10 or a 10x8 mask for an 8x8 output array raises ValueError
 (and the 8x8 mask is accepted) -/
 theorem former_mask_witness_refused :
